@@ -100,6 +100,8 @@ FS_ENTRIES = [
     ('fs_vecr_u64_iopt', vecr('u64'), 'iopt'),
     ('fs_opt_str_vec', opt(STR), 'vec'),
     ('fs_con_sl_str_iopt', con(sl(STR), 'iopt'), 'iopt'),
+    ('fs_strof_cdc_vec', strof(CDC), 'vec'),
+    ('fs_con_strof_cdc_iopt', con(strof(CDC), 'iopt'), 'iopt'),
 ]
 
 def by_name(): return dict(ENTRIES)
@@ -397,7 +399,9 @@ def gen_rust():
     for name, e, o in FS_ENTRIES:
         rt = rust_type(e)
         ict = rust_ic(o, f'<{rt} as Region>::Index')
-        out.append(f'        "{name}" => crate::fs::run_fs::<{rt}, {ict}>(ops),')
+        sd = f'Some(crate::fs::fs_serde::<{rt}, {ict}>)' if caps(e)['serde'] else 'None'
+        cl = f'Some(crate::fs::fs_clone::<{rt}, {ict}>)' if caps(e)['clone'] else 'None'
+        out.append(f'        "{name}" => crate::fs::run_fs::<{rt}, {ict}>(ops, {sd}, {cl}),')
     out.append('        _ => return None,')
     out.append('    })')
     out.append('}')
